@@ -56,6 +56,9 @@ pub fn walk_args(input: &Value, files0: Option<&std::path::Path>) -> Vec<String>
     if flag == "follow" {
         a.push("-follow".into());
     }
+    if cfg.get("xdev").and_then(|x| x.as_bool()).unwrap_or(false) {
+        a.push(if form % 2 == 0 { "-xdev".into() } else { "-mount".into() });
+    }
     if form % 2 == 0 {
         depth_opts(&mut a);
     }
@@ -129,6 +132,9 @@ impl Prop for PWalk {
                 }
             }
             std::fs::write(&f0path, b).unwrap();
+        }
+        if mount_failed() {
+            return json!({"nomount": true});
         }
         let mut args = walk_args(input, if files0 { Some(&f0path) } else { None });
         // find's working directory: the sandbox, or (starting point "." - given or implied) a directory of the tree
@@ -301,6 +307,7 @@ impl Prop for PWalk {
         if self.flavour == "C03" {
             // choose prune paths among the paths of directories below the roots (as find would print them)
             let mut cands: Vec<String> = vec![];
+            let mut cand_nodes: Vec<usize> = vec![];
             for r in &roots {
                 let t = r["node"].as_u64().unwrap() as usize;
                 if t == 0 {
@@ -336,16 +343,27 @@ impl Prop for PWalk {
                     }
                     if !p.contains(|c: char| "*?[\\".contains(c)) {
                         cands.push(p);
+                        cand_nodes.push(i);
                     }
                 }
             }
             let mut pr = vec![];
-            for c in cands {
+            let mut pruned_nodes: Vec<usize> = vec![];
+            for (c, node) in cands.iter().zip(cand_nodes.iter()) {
                 if rng.chance(1, 3) {
-                    pr.push(str_to_json(&c));
+                    pr.push(str_to_json(c));
+                    pruned_nodes.push(*node);
                 }
             }
             cfg["prune"] = Value::Array(pr);
+            // -prune on a directory that -xdev does not descend anyway (another file system is mounted on it) must
+            // still cut that directory only: its siblings and everything after it are visited
+            let real_dirs: Vec<usize> = pruned_nodes.iter().copied().filter(|i| tree[i - 1]["kind"] == "d" && !roots.iter().any(|r| r["node"].as_u64() == Some(*i as u64))).collect();
+            if !real_dirs.is_empty() && rng.chance(1, 3) {
+                let d = *rng.pick(&real_dirs);
+                tree[d - 1]["mnt"] = json!(true);
+                cfg["xdev"] = json!(true);
+            }
         }
         if self.flavour == "C03" && idx % 4 == 1 {
             // sibling order is byte-wise also for names that are not valid UTF-8
